@@ -23,7 +23,7 @@ RULE = (
     "n calls with inter-arrival gaps in {0, P/2, P, 3P/2}, limit 1..3, period as float or "
     "timedelta, call duration in {0, P/2, P, 2P}, optionally one failing call (own exception class, or one of 13 built-in classes a wrapper might handle itself); all orders of timers "
     "sharing a deadline, sub-family with two equal-deadline timers landing in one loop iteration; sub-family with one caller cancelled at any quiescent point (window / order "
-    "/ outcome of the other calls); non-trivial = at least one call was delayed or more than `limit` calls "
+    "/ outcome of the other calls); two throttled functions used interleaved (own windows); non-trivial = at least one call was delayed or more than `limit` calls "
     "arrived within one period"
 )
 ASSUMPTIONS = [
@@ -66,6 +66,7 @@ def programs(tier: str):
                                 "fail": fail,
                             }
     yield from _cancel_programs(tier)
+    yield from _two_programs(tier)
     # two timers due at the same instant (an arrival and the wake-up of a delayed call) landing in
     # the same loop iteration: the arrival then runs between the sleeper's release of the lock and
     # the resumption of the calls queued behind it
@@ -104,11 +105,86 @@ def _cancel_programs(tier: str):
                     yield {"gaps": list(gaps), "limit": limit, "dur": 0.5, "period": "float", "fail": None, "cancels": 1, "fine": True}
 
 
+def _two_programs(tier: str):
+    # TWO throttled functions used interleaved (limit 2 / period 4 and limit 1 / period 1): each
+    # keeps its own window
+    for n in (2, 3, 4):
+        for who in itertools.product("sf", repeat=n):
+            if len(set(who)) < 2:
+                continue
+            for gaps in itertools.product((0.0, 0.5, 1.0, 3.0), repeat=n - 1):
+                yield {"two": "".join(who), "gaps": list(gaps)}
+
+
+def _two_throttles(program, ch: Chooser) -> Result:
+    w = World(ch)
+    viols: list[dict] = []
+    cfg = {"s": (2, 4.0), "f": (1, 1.0)}
+    starts: dict[str, list] = {"s": [], "f": []}
+    arrivals: dict[str, list] = {"s": [], "f": []}
+    results: dict[int, tuple] = {}
+    try:
+
+        def make(which):
+            async def fn(i):
+                starts[which].append((i, now() - START))
+                return (which, i)
+
+            return throttle(limit=cfg[which][0], period=cfg[which][1])(fn)
+
+        fns = {"s": make("s"), "f": make("f")}
+
+        async def call(i, which):
+            arrivals[which].append((i, now() - START))
+            results[i] = await fns[which](i)
+
+        at = 0.0
+        times = [0.0]
+        for g in program["gaps"]:
+            at += g
+            times.append(at)
+        tasks: dict[int, asyncio.Task] = {}
+        for i, (t, which) in enumerate(zip(times, program["two"])):
+            w.loop.call_at(START + t, lambda i=i, which=which: tasks.__setitem__(i, w.task(call(i, which), name=f"c{i}")))
+        hang = False
+        try:
+            w.run()
+        except Livelock:
+            hang = True
+        n = len(times)
+        if hang or len(tasks) < n or any(not t.done() for t in tasks.values()):
+            viols.append(viol("termination", "two-throttles/call-never-finishes", "all calls finish", {"starts": starts}))
+        for which, (limit, period) in cfg.items():
+            # reference: each throttle on its own
+            entries: list[float] = []
+            last = 0.0
+            want = []
+            for i, a in arrivals[which]:
+                t = max(a, last)
+                while sum(1 for e in entries if t - period < e <= t) >= limit:
+                    t = min(e for e in entries if e > t - period) + period
+                entries.append(t)
+                last = t
+                want.append((i, t))
+            if not hang and starts[which] != want:
+                kind = "window" if any(sum(1 for _, t2 in starts[which] if t1 <= t2 < t1 + period) > limit for _, t1 in starts[which]) else "needless-delay-or-order"
+                viols.append(viol(kind, f"two-throttles/{which}/limit={limit}", want, starts[which], other=starts["f" if which == "s" else "s"]))
+        for i, t in tasks.items():
+            if t.done() and not t.cancelled() and t.exception() is not None:
+                viols.append(viol("outcome", "two-throttles/raises", "the function's own outcome", repr(t.exception())[:120]))
+        delayed = sum(1 for which in cfg for (i, t), (_, a) in zip(starts[which], arrivals[which]) if t > a)
+        return Result(f"two/{len(times)}/delayed={min(delayed, 2)}", delayed > 0, viols[:4], {"starts": starts, "arrivals": arrivals})
+    finally:
+        w.close()
+
+
 def explore_config(tier: str, program) -> dict:
     return {"cap": 400000}
 
 
 def execute(program, ch: Chooser) -> Result:  # noqa: C901, PLR0912, PLR0915
+    if "two" in program:
+        return _two_throttles(program, ch)
     P = PERIODS[program["period"]]
     gaps, limit, dur, fail = [g * P for g in program["gaps"]], program["limit"], program["dur"] * P, program["fail"]
     n = len(gaps) + 1
